@@ -26,6 +26,20 @@ NA = {
 NOT_BUILT = "check not built yet (build in progress; see DESIGN.md Appendix C)"
 
 CHECKS = {
+    "C11": {
+        "category": "exploration",
+        "text": "Seeded search over concurrent histories: 1-5 simulated callers (asyncio tasks on a virtual-time loop, or real threads under a baton scheduler pre-empted at source-line granularity) share one bundled base client of every kind (sync/async x plain/OpenTelemetry x tracer none/proxy/recording, own or explicit httpx client) and post drawn workloads (variables trees with generated models, enums, datetimes, UNSET, Upload objects at any depth and referenced repeatedly; header/timeout kwargs) to a simulated server with seeded latencies and injected transport faults. Every captured request is compared with a request reference model written from the GraphQL multipart request specification, every outcome with the response addressed to that call, and the whole history is re-run sequentially on another client variant and compared request by request. Sampling, not proof.",
+        "design_ref": "DESIGN.md section 4 (C11), sections 3.2-3.3",
+        "note": "Trusted: httpx request building/multipart encoding (real code), the transport seam replacing httpcore/sockets, the reference model in sim/models/request_model.py, the independent multipart parser in sim/simhttp.py. Thread pre-emption only at line granularity inside the generated package's client files.",
+        "technique": "deterministic simulation with fault injection: virtual-time asyncio loop and baton-passing threads over an httpx transport seam, seeded schedules/latencies/transport faults, request reference model, differential client variants",
+    },
+    "C12": {
+        "category": "fault_enumeration",
+        "text": "The simulated HTTP peer is the fault source: every status code (quick: 17 representative codes; thorough: all of 100-599) x 29 body classes (conformant, data/errors combinations, torn at a drawn byte, flipped byte, invalid UTF-8, BOM, UTF-16, non-object JSON, empty, HTML, ...) x 8 client variants x {execute+get_data, generated method} is played inside concurrent histories and judged against the decision table of the property applied to the bytes actually sent; then seeded histories. The single-fault table is swept completely at the stated bound; torn/flipped positions are sampled.",
+        "design_ref": "DESIGN.md section 4 (C12)",
+        "note": "Trusted: httpx.Response (real), json.loads as the reference JSON parser, the decision table in sim/models/response_model.py. errors members are spec-shaped as the property stipulates; other shapes are recorded as probes only.",
+        "technique": "deterministic simulation with response-fault injection: scripted HTTP peer sweeping status x body class inside concurrent runs of all client variants; decision-table reference model",
+    },
     "C13": {
         "category": "fault_enumeration",
         "text": "Every server frame sequence of length <=2 (quick) / <=4 (thorough) over the 10-letter graphql-transport-ws frame alphabet, at each of the three handshake phases, is played by a real websockets server to the real execute_ws / generated subscription methods over a seeded in-memory TCP, and judged frame by frame against a protocol reference model; then seeded long scripts with transport faults (FIN, RST, 1011, stalls, fragmentation, coalescing, latency), 1-3 concurrent subscriptions and a differential re-run of the same choices against another client variant. A clean run is evidence for the enumerated bound and a sample beyond it, not a proof.",
